@@ -23,7 +23,7 @@ theorem reencode_identical (s : SVal) (h : WFS s) (f : Nat) (hf : sneed s ≤ f)
     reference / unknown inside) that `NewValue` does not decode natively, and every well-typed
     datum `v`, the value `Opaque(print t, D t v)` round-trips; `D` is the documented layout. -/
 theorem opaque_roundtrip (t : Ty) (v : TVal) (hwf : C09.WF t) (hp : Plain t) (ht : Typed t v)
-    (hk : ¬ IsTableKey (print t)) (hl : (print t).length ≤ maxStringSize) (f : Nat) (hf : vneed v + 1 ≤ f)
+    (hk : ¬ IsTableKey (print t)) (hl : SigFits t) (f : Nat) (hf : vneed v + 1 ≤ f)
     (rest : Bytes) :
     readVal f (Value.writeString (print t) ++ D t v ++ rest) = .ok (.opaque (print t) (D t v), rest) := by
   have := val_rt (.opq t v) ⟨hwf, hp, ht, hk, hl⟩ f rest (by simp [sneed]; omega)
@@ -50,6 +50,6 @@ def exS : SVal := .list [.scalar 105 42, .str [111, 107], .opq exStructTy exStru
 
 example : Typed exStructTy exStructVal := by
   simp [exStructTy, exStructVal, Typed, TypedMembers, TypedList, width, C09.WF, Plain, print, maxStringSize,
-    basicLetters, zeroSize]
+    basicLetters, zeroSize, SigFits, C09.nest, maxDepth]
 
 end QiVerif.C02
